@@ -56,7 +56,6 @@ Section Product.
 Variables a b : pattern.
 Hypothesis Hwa : wf a.
 Hypothesis Hwb : wf b.
-Hypothesis Hsize : nlen a * nlen b <= 65536.
 
 Definition edge_of (u1 u2 : transition) (to : N) : transition :=
   mkT (bmax (tmin u1) (tmin u2)) (bmin (tmax u1) (tmax u2)) to.
@@ -107,23 +106,6 @@ Proof.
   destruct (B _ _ _ N I3) as (y' & N' & I3'). exists id, id', y'. auto.
 Qed.
 
-(* the keys fit into the product: at most nlen a * nlen b allocations *)
-Lemma keys_bound (m : list (N * N * N)) :
-  (forall s1 s2 id, In (s1, s2, id) m -> s1 < nlen a /\ s2 < nlen b) ->
-  NoDup (map key3 m) -> nlen m <= nlen a * nlen b.
-Proof.
-  intros Hk Hn.
-  set (L := list_prod (map N.of_nat (seq 0 (length a))) (map N.of_nat (seq 0 (length b)))).
-  assert (Hincl : incl (map key3 m) L).
-  { intros [s1 s2] I. apply in_map_iff in I as ([[k1 k2] v] & E & I). unfold key3 in E. cbn [fst] in E.
-    injection E as -> ->. destruct (Hk _ _ _ I) as [H1 H2]. rewrite nlen_length in H1, H2.
-    apply in_prod; apply in_map_iff.
-    - exists (N.to_nat s1). split; [lia|]. apply in_seq. lia.
-    - exists (N.to_nat s2). split; [lia|]. apply in_seq. lia. }
-  pose proof (NoDup_incl_length Hn Hincl) as Hl. unfold L in Hl.
-  rewrite prod_length, !map_length, !seq_length in Hl. rewrite !nlen_length. lia.
-Qed.
-
 (* stateFor *)
 Lemma state_for_spec st s1 s2 : J st -> s1 < nlen a -> s2 < nlen b ->
   exists st' id, state_for a b st s1 s2 = Some (st', id) /\ J st' /\ ext st st'
@@ -136,15 +118,7 @@ Proof.
     set (R := ires st) in *. set (M := imap st) in *.
     assert (Hnew : ~ In (s1, s2) (map key3 M)) by (apply lookup_none; exact El).
     assert (HL : nlen R = nlen M) by exact (j_len _ Hj).
-    assert (Hb : nlen M + 1 <= nlen a * nlen b).
-    { pose proof (keys_bound ((s1, s2, nlen R) :: M)) as K. rewrite nlen_cons in K.
-      assert (K' : N.succ (nlen M) <= nlen a * nlen b).
-      { apply K.
-        - intros k1 k2 id [E|I]; [injection E as <- <- _; auto|exact (j_keys _ Hj _ _ _ I)].
-        - cbn [map]. constructor; [exact Hnew|exact (j_nodup _ Hj)]. }
-      lia. }
-    assert (Hid : to_state_id (nlen R) = nlen R).
-    { apply to_state_id_small. lia. }
+    assert (Hid : to_state_id (nlen R) = nlen R) by apply to_state_id_id.
     rewrite Hid.
     exists (mkI (R ++ [mkS [] (fin x1 && fin x2)]) ((s1, s2, nlen R) :: M)), (nlen R).
     split; [reflexivity|]. split; [|split].
@@ -185,10 +159,7 @@ Proof.
   assert (T2 : tto u2 < nlen b) by (destruct Hwb as [_ H]; exact (H x2 (nth_n_In _ _ _ N2) u2 I2)).
   cbn [step]. unfold isect_pair.
   destruct (N.leb_spec (bmax (tmin u1) (tmin u2)) (bmin (tmax u1) (tmax u2))) as [O|O].
-  - assert (B1 : nlen a <= 65536 /\ nlen b <= 65536).
-    { destruct Hwa as [Ha _], Hwb as [Hb _]. destruct a as [|? ?]; [contradiction|]. destruct b as [|? ?]; [contradiction|].
-      rewrite !nlen_cons in *. split; nia. }
-    rewrite !to_state_id_small by lia.
+  - rewrite !to_state_id_id.
     destruct (state_for_spec st i1 i2 Hj L1 L2) as (st1 & from & E1 & Hj1 & X1 & F1). rewrite E1.
     destruct (state_for_spec st1 (tto u1) (tto u2) Hj1 T1 T2) as (st2 & to & E2 & Hj2 & X2 & F2). rewrite E2.
     assert (F1' : In (i1, i2, from) (imap st2)) by (apply X2; exact F1).
